@@ -349,7 +349,12 @@ impl ExecSubject {
             ));
         }
         if events_str(&val.events) != events_str(&res.events) {
-            return Err(viol("events-differ", format!("events differ: produced {} validated {}", events_str(&res.events), events_str(&val.events))));
+            // a transaction skipped with FeeOverflow after its VM run leaves its input/output events behind: own witness class
+            let late = res.skipped_transactions.iter().any(|(_, e)| matches!(e, ExecutorError::FeeOverflow));
+            return Err(viol(
+                if late { "events-differ:skipped-FeeOverflow" } else { "events-differ" },
+                format!("events differ: produced {} validated {}", events_str(&res.events), events_str(&val.events)),
+            ));
         }
         match &r2 {
             Ok((val2, vch2)) => {
@@ -487,8 +492,9 @@ impl ExecSubject {
         if actual != expected {
             let ea: Vec<_> = actual.iter().filter(|x| !expected.contains(x)).take(2).collect();
             let ee: Vec<_> = expected.iter().filter(|x| !actual.contains(x)).take(2).collect();
+            let late = res.skipped_transactions.iter().any(|(_, e)| matches!(e, ExecutorError::FeeOverflow));
             return Err(viol(
-                "events-differ-from-utxo-difference",
+                if late { "events-differ-from-utxo-difference:skipped-FeeOverflow" } else { "events-differ-from-utxo-difference" },
                 format!("block {height}: {} reported vs {} expected events; reported-only {ea:?}; expected-only {ee:?}", actual.len(), expected.len()),
             ));
         }
@@ -622,6 +628,12 @@ impl ExecSubject {
                 }
                 if ri.block.id() != rp.block.id() {
                     return Err(viol("skipped-tx-changed-block", format!("skipped transaction changed the produced block ({err:?})")));
+                }
+                if events_str(&ri.events) != events_str(&rp.events) {
+                    return Err(viol(
+                        format!("skipped-tx-left-events:{}", err_class(err)),
+                        format!("transaction {} was skipped ({err:?}) but the block's events differ from the block without it", self.u.templates[op.txs[i - 1] as usize].name),
+                    ));
                 }
                 self.fact(format!("c04:skip-checked:{}", err_class(err)));
                 continue;
